@@ -8,5 +8,5 @@ git -C $S checkout -q --detach $(git -C /repo rev-parse HEAD) 2>/dev/null || tru
 git -C $S checkout -q -- . ; git -C $S clean -fdq
 git -C $S apply "$P"
 cd /verif; set +e
-VERIF_REPO=$S ./check $ID --tier $TIER; echo "exit=$?"
+mkdir -p /tmp/scr/evidence /tmp/scr/replays; VERIF_EVIDENCE_DIR=/tmp/scr/evidence VERIF_REPLAY_DIR=/tmp/scr/replays VERIF_REPO=$S ./check $ID --tier $TIER; echo "exit=$?"
 git -C $S checkout -q -- . ; git -C $S clean -fdq
